@@ -433,7 +433,7 @@ func GenProg(r *RNG, q *big.Int, cfg GenCfg) *Prog {
 			case 0:
 				op.N = fieldBits
 			case 1:
-				op.N = 1 + r.Intn(fieldBits)
+				op.N = 1 + r.Intn(fieldBits+2) // up to two bits wider than the field
 			default:
 				op.N = 1 + r.Intn(4)
 			}
